@@ -61,3 +61,30 @@ Theorem C14_gen_fileName_not_temp : forall (sum : list Z -> list Z) (hexenc : li
   is_temp (gen_crl_FileCache_fileName sum hexenc c url) = false.
 Proof. exact gen_fileName_not_temp. Qed.
 Print Assumptions C14_gen_fileName_not_temp.
+
+(* ---------- the reader: crl.FileCache.Get ----------
+   (translated with NilIsEmpty: the test `content.DeltaCRL != nil` of crl.go:104 is read as
+   len != 0; the two theorems below concern the access to the directory, which precedes it, and hold
+   whatever the decoding part does) *)
+
+(* Get consults the file system through ONE path, <root>/<fileName url> = the key of the URL: two
+   behaviours of os.ReadFile that agree on that path give the same result (so a hit is a function
+   of the bytes one ReadFile of the key returned: the model's EOpen/ERead/EEof of one inode) *)
+Theorem C14_gen_Get_reads_key_only :
+  forall sum hexenc join parse now unmarshal (rf rf' : string -> list Z * option err) c url,
+  rf (get_path sum hexenc join c url) = rf' (get_path sum hexenc join c url) ->
+  gen_crl_FileCache_Get sum hexenc join rf parse now unmarshal c url =
+  gen_crl_FileCache_Get sum hexenc join rf' parse now unmarshal c url.
+Proof. exact gen_Get_reads_key_only. Qed.
+Print Assumptions C14_gen_Get_reads_key_only.
+
+(* os.ReadFile failed: Get reports a miss exactly when the error is (wraps) fs.ErrNotExist - the
+   model's [Miss] = no directory entry for the key - and otherwise an error that is not a miss *)
+Theorem C14_gen_Get_read_error :
+  forall sum hexenc join parse now unmarshal (rf : string -> list Z * option err) c url e,
+  snd (rf (get_path sum hexenc join c url)) = Some e ->
+  exists r, gen_crl_FileCache_Get sum hexenc join rf parse now unmarshal c url = Some (PNil, r) /\
+    if err_is (Some e) fs_ErrNotExist then r = crl_ErrCacheMiss
+    else exists f w, r = Some (Err "fmt" f w).
+Proof. exact gen_Get_read_error. Qed.
+Print Assumptions C14_gen_Get_read_error.
